@@ -117,7 +117,7 @@ Lemma wrap_fields_pure : forall r fs fs',
   wrap_fields MUntyped r fs = Some fs' ->
   Forall (fun ft => pure_thunk (snd ft)) fs'.
 Proof.
-  induction r as [|f T r IH]; simpl; intros fs fs' HF Hw.
+  induction r as [|f T r IH|n]; simpl; intros fs fs' HF Hw.
   - inversion Hw; subst. constructor.
   - destruct (assoc f fs) as [t|] eqn:Ha; [|discriminate].
     destruct (wrap_fields MUntyped r fs) as [rest|] eqn:Hr; [|discriminate].
@@ -126,6 +126,7 @@ Proof.
       constructor; [|constructor]. simpl.
       eapply (assoc_Forall pure_thunk); eassumption.
     + eapply IH; eauto.
+  - discriminate.
 Qed.
 
 Lemma cast_whnf_pure : forall T v, pure_whnf v -> pure_out (cast_whnf MUntyped T v).
@@ -148,10 +149,10 @@ Proof.
     constructor; [reflexivity|]. constructor; [|constructor]. simpl.
     rewrite Forall_forall in H0. apply (H0 ft0 Hin).
   - (* TEnum, tag *)
-    destruct (erows_lookup t e) as [[T'|]|]; simpl; auto.
+    destruct (erows_lookup t false e) as [[T'|]|]; simpl; auto.
   - (* TEnum, variant *)
     inversion Hv; subst.
-    destruct (erows_lookup t e) as [[T'|]|]; simpl; auto.
+    destruct (erows_lookup t true e) as [[T'|]|]; simpl; auto.
     constructor. unfold wrap. constructor; [reflexivity|]. constructor; [|constructor]. assumption.
 Qed.
 
